@@ -1,3 +1,4 @@
+import VrpProofs.C17.Lkh
 import Mathlib.Data.List.Permutation
 import Mathlib.Data.List.Perm.Subperm
 /-!
@@ -105,6 +106,34 @@ theorem optimizeV_perm (improve : List Nat → Option (List Nat)) (hperm : ∀ a
       · simp only [hr, if_true, Option.some.injEq] at h; subst h; exact List.Perm.refl _
       · simp only [hr, if_false] at h
         exact (ih (r :: seen) r q h).trans (hperm p r hi)
+
+/-- with exact costs and the move-level contract of `improve` (every accepted tour strictly cheaper) the repaired loop
+    behaves like the original one: a permutation with the same first node, cost not above the input's. (With f64 costs the
+    accepted "gain" is a rounded sum; the cost clause is then decided by the oracle on the real output.) -/
+theorem optimizeV_cost_nonincreasing (c : Nat → Nat → Int) (hsym : ∀ i j, c i j = c j i)
+    (improve : List Nat → Option (List Nat))
+    (hc : ∀ p q, p.Nodup → improve p = some q → Lkh.Improves c p q) :
+    ∀ (fuel : Nat) (seen : List (List Nat)) (p q : List Nat), p.Nodup → optimizeV improve fuel seen p = some q →
+      q.Perm p ∧ q.head? = p.head? ∧ Lkh.closedCost c q ≤ Lkh.closedCost c p := by
+  intro fuel
+  induction fuel with
+  | zero => intro seen p q _ h; simp [optimizeV] at h
+  | succ f ih =>
+    intro seen p q hnd h
+    simp only [optimizeV] at h
+    cases hi : improve p with
+    | none =>
+      simp only [hi, Option.some.injEq] at h; subst h
+      exact ⟨List.Perm.refl _, rfl, Int.le_refl _⟩
+    | some r =>
+      simp only [hi] at h
+      by_cases hr : r ∈ seen
+      · simp only [hr, if_true, Option.some.injEq] at h; subst h
+        exact ⟨List.Perm.refl _, rfl, Int.le_refl _⟩
+      · simp only [hr, if_false] at h
+        obtain ⟨h1, h2, h3⟩ := Lkh.improves_sound c hsym p r hnd (hc p r hnd hi)
+        obtain ⟨g1, g2, g3⟩ := ih (r :: seen) r q (h1.nodup_iff.mpr hnd) h
+        exact ⟨g1.trans h1, g2.trans h2, by omega⟩
 
 /-- the S50 shape: an `improve` that swaps two tours back and forth (both "gains" rounding-positive). The loop without
     memory never returns - for every fuel the result is `none` -, the repaired loop returns after two rounds -/
